@@ -1,5 +1,5 @@
 (* C15 — Status event registers latch filtered condition transitions until read. *)
-From VF Require Import Base Status StatusSpec Status_proofs.
+From VF Require Import Base Status StatusSpec Status_proofs Contrib ContribSpec Contrib_proofs.
 Open Scope N_scope.
 
 (* For ANY history of condition updates (arbitrary values), filter/enable writes, queries, *CLS
@@ -48,6 +48,22 @@ Proof.
   repeat split; cbn; auto. discriminate.
 Qed.
 
+(* The theorems above are about the operation-level device model (Status.v).  They transfer to the byte-level
+   full-stack model of Contrib.v (program-message bytes -> Lexer -> Tree dispatcher -> the mandated command tree ->
+   Response formatter -> error hook): on the canonical text of any operation list, in every device state reachable
+   from power-on by such messages, the full stack computes exactly the operation-level result (state, response
+   bytes, error), and never panics. *)
+Theorem C15_full_stack_refines : forall msgs mav us,
+  forallb (fun m => forallb renderable (snd m)) msgs = true -> forallb renderable us = true ->
+  dev_message (session_ops dev_init msgs) mav (units_text us) = Val (op_message (session_ops dev_init msgs) mav us).
+Proof. exact contrib_refines_ops_session. Qed.
+(* ... and in an arbitrary device state exactly when every queued error is renderable (a custom non-ASCII message
+   without extended text is not: the response formatter rejects it) *)
+Theorem C15_full_stack_refines_iff : forall d,
+  (forall mav us, forallb renderable us = true -> dev_message d mav (units_text us) = Val (op_message d mav us))
+  <-> queue_printable d = true.
+Proof. exact contrib_refines_ops_iff. Qed.
+
 Print Assumptions C15_event_latched.
 Print Assumptions C15_event_read_clears.
 Print Assumptions C15_other_reads_pure.
@@ -55,3 +71,5 @@ Print Assumptions C15_readback.
 Print Assumptions C15_bit15_clear.
 Print Assumptions C15_low_bits_faithful.
 Print Assumptions C15_preset_values.
+Print Assumptions C15_full_stack_refines.
+Print Assumptions C15_full_stack_refines_iff.
